@@ -406,10 +406,14 @@ func (t *parser) listItem(list []interface{}, i, nestedNameLevel int) ([]interfa
 		}
 		// Now we need to get the value after the ].
 		list2, err := t.listItem(crtList, nextI, nestedNameLevel)
-		if err != nil {
+		if err != nil && err != io.EOF {
 			return list, err
 		}
-		return setIndex(list, i, list2)
+		l, serr := setIndex(list, i, list2)
+		if serr != nil {
+			return l, serr
+		}
+		return l, err
 	case last == '.':
 		// We have a nested object. Send to t.key
 		inner := map[string]interface{}{}
@@ -425,10 +429,14 @@ func (t *parser) listItem(list []interface{}, i, nestedNameLevel int) ([]interfa
 
 		// Recurse
 		e := t.key(inner, nestedNameLevel)
-		if e != nil {
+		if e != nil && e != io.EOF {
 			return list, e
 		}
-		return setIndex(list, i, inner)
+		l, err := setIndex(list, i, inner)
+		if err != nil {
+			return l, err
+		}
+		return l, e
 	default:
 		return nil, errors.Errorf("parse error: unexpected token %v", last)
 	}
